@@ -58,9 +58,6 @@ func ByteStreamConsumer(opts ...byteStreamOpt) Consumer {
 		if reader == nil {
 			return errors.New("ByteStreamConsumer requires a reader") // early exit
 		}
-		if data == nil {
-			return errors.New("nil destination for ByteStreamConsumer")
-		}
 
 		closer := defaultCloser
 		if vals.Close {
@@ -71,6 +68,13 @@ func ByteStreamConsumer(opts ...byteStreamOpt) Consumer {
 		defer func() {
 			_ = closer()
 		}()
+
+		if data == nil {
+			return errors.New("nil destination for ByteStreamConsumer")
+		}
+		if v := reflect.ValueOf(data); v.Kind() == reflect.Ptr && v.IsNil() {
+			return fmt.Errorf("nil destination (%T) for ByteStreamConsumer", data)
+		}
 
 		if readerFrom, isReaderFrom := data.(io.ReaderFrom); isReaderFrom {
 			_, err := readerFrom.ReadFrom(reader)
@@ -152,9 +156,6 @@ func ByteStreamProducer(opts ...byteStreamOpt) Producer {
 		if writer == nil {
 			return errors.New("ByteStreamProducer requires a writer") // early exit
 		}
-		if data == nil {
-			return errors.New("nil data for ByteStreamProducer")
-		}
 
 		closer := defaultCloser
 		if vals.Close {
@@ -165,6 +166,13 @@ func ByteStreamProducer(opts ...byteStreamOpt) Producer {
 		defer func() {
 			_ = closer()
 		}()
+
+		if data == nil {
+			return errors.New("nil data for ByteStreamProducer")
+		}
+		if v := reflect.ValueOf(data); v.Kind() == reflect.Ptr && v.IsNil() {
+			return fmt.Errorf("nil data (%T) for ByteStreamProducer", data)
+		}
 
 		if rc, isDataCloser := data.(io.ReadCloser); isDataCloser {
 			defer rc.Close()
